@@ -815,10 +815,10 @@ public:
   {
     switch (f)
     {
-    case cpp_format:     return "1.0 / (1.0 + std::exp(-%%1%%))";
-    case mql_format:     return  "1.0 / (1.0 + MathExp(-%%1%%))";
-    case python_format:  return   "1. / (1. + math.exp(-%%1%%))";
-    default:             return          "1 / (1 + exp(-%%1%%))";
+    case cpp_format:     return "(1.0 / (1.0 + std::exp(-%%1%%)))";
+    case mql_format:     return  "(1.0 / (1.0 + MathExp(-%%1%%)))";
+    case python_format:  return   "(1. / (1. + math.exp(-%%1%%)))";
+    default:             return         "(1 / (1 + exp(-%%1%%)))";
     }
   }
 
